@@ -34,9 +34,11 @@ def make(rng, i, force_trait=None):
     def field_ty(p):
         return rng.choice([p, p, "Option<%s>" % p, "Vec<%s>" % p, "core::marker::PhantomData<%s>" % p, "[%s; %s]" % (p, n_name),
                            "(%s, u8)" % p, "&%s %s" % (lt, p), "u8", "Box<%s>" % p])
-    kind = rng.choice(["struct", "enum"])
+    kind = rng.choice(["struct", "enum", "struct", "enum", "struct", "enum", "struct", "enum", "union"])
     trait = force_trait or rng.choice(["Debug", "Clone", "PartialEq", "Hash", "Ord", "PartialOrd", "Default", "Copy", "Eq", "Clone+Copy", "PartialEq+Eq",
                                        "Ord+PartialOrd", "Into", "Deref"])
+    if kind == "union" and trait not in ("Debug", "Clone", "PartialEq", "Hash", "Copy", "Eq", "Clone+Copy", "PartialEq+Eq", "Default"):
+        kind = "struct"
     traits = trait.split("+")
     main = traits[0]
     # bound mode
@@ -46,6 +48,10 @@ def make(rng, i, force_trait=None):
           "disabled": rng.choice(["bound = false", "bound(false)"]), "disabled2": rng.choice(['bound = ""', "bound()"]),
           "autotrue": rng.choice(["bound = true", "bound(true)"])}[mode]
     shape = rng.choice(["tuple", "named"])
+    if kind == "union":
+        shape = "named"
+        if main in ("Debug", "PartialEq", "Hash"):
+            mode, bp = "auto", None          # byte-wise impls behind `unsafe` take no bound parameter
     nf = rng.randint(1, 4)
     fields = []
     used = set()
@@ -66,7 +72,10 @@ def make(rng, i, force_trait=None):
     if len(consts) > 1:
         fields.append("[u8; M]")
     fattrs = [""] * len(fields)
-    if main in ("Debug", "PartialEq", "Hash", "Ord", "PartialOrd"):
+    if kind == "union":
+        if main == "Default":
+            fattrs[rng.randrange(len(fields))] = "#[educe(Default)]"
+    elif main in ("Debug", "PartialEq", "Hash", "Ord", "PartialOrd"):
         for j in range(len(fields)):
             r = rng.random()
             if r < 0.25:
@@ -96,7 +105,9 @@ def make(rng, i, force_trait=None):
         metas = []
         for t in traits:
             # the companion of a coupled pair takes no bound of its own
-            if bp and t == main:
+            if kind == "union" and t in ("Debug", "PartialEq", "Hash"):
+                metas.append("%s(unsafe)" % t)
+            elif bp and t == main:
                 metas.append("%s(%s)" % (t, bp))
             else:
                 metas.append(t)
@@ -109,7 +120,9 @@ def make(rng, i, force_trait=None):
     w = (" where %s" % ", ".join(where)) if where else ""
     body = ("{ %s }" % fs(True)) if shape == "named" else "(%s)" % fs(False)
     attrs = "#[educe(%s)]" % ", ".join(metas) if rng.random() < 0.5 else "\n".join("#[educe(%s)]" % m for m in metas)
-    if kind == "struct":
+    if kind == "union":
+        src = "#[derive(Educe)]\n%s\nunion G%d%s%s %s" % (attrs, i, generics, w, body)
+    elif kind == "struct":
         src = "#[derive(Educe)]\n%s\nstruct G%d%s%s%s%s" % (attrs, i, generics, (w + " " + body) if shape == "named" else body, "" if shape == "named" else w, "" if shape == "named" else ";")
     else:
         vattr = "#[educe(Default)] " if main == "Default" else ""
